@@ -6,7 +6,8 @@ CONSTANTS
   MaxLen = 12
   MaxTime = 5
   RawOps = TRUE
-  IOAmts <- IO3
+  IOIns <- InsT4
+  IOOuts <- OutsT4
   Genesis <- Gen3
 VIEW View
 INVARIANTS SupplyEq BalanceWellFormed SupplyWellFormed HolderHasAccount NumsUnique
